@@ -129,6 +129,14 @@ add('for_continue_last', 'fn fcl(n: int) -> int {\n    let mut acc: int = 0\n   
 add('nested_loop_inner_continue_last', '', 'let mut total: int = 0\nfor a in (range 0 2) {\n    let mut b: int = 0\n    while (< b 2) {\n        set b (+ b 1)\n        if (== b 2) {\n            continue\n        }\n        set total (+ total 1)\n    }\n    set total (+ total 10)\n}\n(println total)', '22\n')
 add('while_break_first_then_stmt', '', 'let mut i: int = 0\nwhile (< i 5) {\n    set i (+ i 1)\n    break\n}\n(println i)\nlet mut j: int = 0\nfor q in (range 0 5) {\n    set j (+ j 1)\n    if (== q 0) {\n        break\n    }\n}\n(println j)', '1\n1\n')
 
+# a map that has grown several times still finds every key
+add('hashmap_grow', 'fn hk(i: int) -> string {\n    return (+ "k" (int_to_string i))\n}\nshadow hk { assert true }',
+    'let m: HashMap<string, int> = (map_new)\nlet q: HashMap<int, int> = (map_new)\nlet mut i: int = 0\nwhile (< i 40) {\n    (map_put m (hk i) (* i 2))\n    (map_put q (- (* i 7) 50) i)\n    set i (+ i 1)\n}\nlet mut tt: int = 0\nlet mut u: int = 0\nset i 0\nwhile (< i 40) {\n    set tt (+ tt (map_get m (hk i)))\n    set u (+ u (map_get q (- (* i 7) 50)))\n    set i (+ i 1)\n}\n(println tt)\n(println u)\n(println (map_length m))\n(map_remove m (hk 39))\n(println (map_has m (hk 39)))\n(println (map_has m (hk 38)))\n(println (map_length m))',
+    '1560\n780\n40\nfalse\ntrue\n39\n')
+
+# a local variable may have the name of a function (static scoping: the innermost binding wins)
+add('local_named_like_function', 'fn total() -> int {\n    return 5\n}\nshadow total { assert true }\nfn usef() -> int {\n    let mut total: int = 1\n    set total (+ total 2)\n    return total\n}\nshadow usef { assert true }', '(println (usef))\n(println (total))', '3\n5\n')
+
 # forward references: the callee is defined after its caller (and after main)
 add('forward_call', '', '(println (later 4))\n(println (later2 "x"))', '41\nin-later2\nxx\n',
     after='fn later(x: int) -> int {\n    return (+ (* x 10) 1)\n}\nshadow later { assert true }\nfn later2(s: string) -> string {\n    (println "in-later2")\n    return (+ s s)\n}\nshadow later2 { assert true }')
